@@ -16,20 +16,28 @@
 (*            request never exceeds (B + 1) * I                            *)
 (*            ( <=> in every window of length T at most B + T/I + 1 )      *)
 (*    Fresh   a request at least I after the last allowed one is allowed   *)
-(* MC_Limiter prints its behaviours (gap sequences) for replay.            *)
+(* Forced draws (finish, println, the draw of a bar finished by its drop)  *)
+(* bypass the bucket: they neither take a token nor move `prev`, and they  *)
+(* are not counted by the laws.  With Churn = TRUE the model takes such    *)
+(* steps between requests; zh says that a forced draw came since the last  *)
+(* request (in a MultiProgress: a finished member waits at the head of the *)
+(* list to be released by the next draw), so that the generated cover has  *)
+(* a request in every bucket state right after one.  In hist a forced step *)
+(* after gap g is the negative number -(g + 1).                            *)
+(* The Emit action prints the behaviours (gap sequences) for replay.       *)
 (***************************************************************************)
 EXTENDS Integers, Sequences, TLC, Json
-CONSTANTS I, B, Gaps, D
+CONSTANTS I, B, Gaps, D, Churn
 VARIABLES cap, since,      \* capacity; time since `prev`
           G, sinceAllow,   \* leaky counter (scaled by I); time since the last allowed request (-1: none yet)
-          lastAllowed, hist, done
-vars == <<cap, since, G, sinceAllow, lastAllowed, hist, done>>
+          lastAllowed, hist, done, zh
+vars == <<cap, since, G, sinceAllow, lastAllowed, hist, done, zh>>
 
 Min(a, b) == IF a <= b THEN a ELSE b
 Max(a, b) == IF a >= b THEN a ELSE b
 Clip(x) == Min(x, (B + 3) * I)          \* times beyond this are all alike (keeps the state space finite)
 
-Init == cap = B /\ since = 0 /\ G = 0 /\ sinceAllow = -1 /\ lastAllowed = TRUE /\ hist = <<>> /\ done = FALSE
+Init == cap = B /\ since = 0 /\ G = 0 /\ sinceAllow = -1 /\ lastAllowed = TRUE /\ hist = <<>> /\ done = FALSE /\ zh = FALSE
 
 Request(gap) ==
     LET elapsed == since + gap
@@ -43,21 +51,31 @@ Request(gap) ==
                /\ G' = Max(G - (IF sinceAllow = -1 THEN 0 ELSE sinceAllow + gap), 0) + I
                /\ sinceAllow' = 0
        /\ hist' = Append(hist, gap)
+       /\ zh' = FALSE
 
-Step == Len(hist) < D /\ (\E g \in Gaps : Request(g)) /\ UNCHANGED done
+(* a forced draw: time passes, the bucket and the counted frames are untouched *)
+Forced(gap) ==
+    /\ Churn /\ ~zh
+    /\ since' = Clip(since + gap)
+    /\ sinceAllow' = IF sinceAllow = -1 THEN -1 ELSE Clip(sinceAllow + gap)
+    /\ zh' = TRUE
+    /\ hist' = Append(hist, -(gap + 1))
+    /\ UNCHANGED <<cap, G, lastAllowed>>
+
+Step == Len(hist) < D /\ (\E g \in Gaps : Request(g) \/ Forced(g)) /\ UNCHANGED done
 Emit == /\ ~done /\ Len(hist) > 0
         /\ PrintT(<<"REPLAY", ToJson([gaps |-> hist])>>)
-        /\ done' = TRUE /\ UNCHANGED <<cap, since, G, sinceAllow, lastAllowed, hist>>
+        /\ done' = TRUE /\ UNCHANGED <<cap, since, G, sinceAllow, lastAllowed, hist, zh>>
 Next == Step \/ Emit
 Spec == Init /\ [][Next]_vars
 
 (* exhaustive view for the invariants (small B) *)
-View == <<cap, since, G, sinceAllow, lastAllowed, done>>
+View == <<cap, since, G, sinceAllow, lastAllowed, done, zh>>
 (* generation view (real B): one shortest history per reachable (bucket state, decision) *)
-ViewImpl == <<cap, since, IF sinceAllow >= I THEN I ELSE sinceAllow, lastAllowed, done>>
+ViewImpl == <<cap, since, IF sinceAllow >= I THEN I ELSE sinceAllow, lastAllowed, done, zh>>
 
 TypeOK == cap \in 0..B /\ since >= 0
 WindowI == G <= (B + 1) * I
-FreshI == (sinceAllow >= I) => FALSE          \* a request that came >= I after the last allowed one was itself allowed, so sinceAllow was reset
+FreshI == (~zh /\ sinceAllow >= I) => FALSE          \* a request that came >= I after the last allowed one was itself allowed, so sinceAllow was reset
 CapOK == cap <= B
 =============================================================================
